@@ -508,6 +508,8 @@ pub fn items(prop: &str, tier: &str) -> Vec<Item> {
                 ("root", "nonexistent", "missing"), ("self", "nonexistent", "missing"), ("thread-self", "fd/nonexistent", "missing"), ("root", "self/nonexistent/x", "missing"), ("root", "sys/nonexistent", "missing"), ("root", "999999999/status", "missing"),
                 ("self", "status", "existing"), ("thread-self", "fd/3", "existing"), ("root", "self/stat", "existing"),
                 ("root", "sys/kernel/ostype", "masked"), ("root", "1/status", "masked"), ("root", "uptime", "masked"), ("root", "1/nonexistent", "masked"),
+                // a symlink that only exists outside subset=pid (-> self/mounts)
+                ("root", "mounts", "masked"),
             ];
             // caller kinds: 0 = root with every capability, 1 = uid 1000 without capabilities, 2 = root of a fresh user namespace that
             // owns its mount and pid namespaces (rootless container: may mount a private procfs only if that is not "too revealing")
@@ -526,7 +528,7 @@ pub fn items(prop: &str, tier: &str) -> Vec<Item> {
                     for (base, sub, class) in &subs {
                         for opn in ["proc_open", "proc_readlink", "proc_open_follow"] {
                             if hk == "capi" && opn == "proc_open_follow" { continue; }
-                            if !th && opn == "proc_open_follow" && *class != "missing" { continue; }
+                            if !th && opn == "proc_open_follow" && *class != "missing" && *sub != "mounts" { continue; }
                             let mut op = Op::new(opn).base(base).path(sub).flags(O_RDONLY | O_NONBLOCK);
                             match hk { "new" => op = op.procfs("new"), "capi" => op = op.capi(), _ => op = op.procfs("pj") }
                             scs.push(Scenario { name: format!("{}{}{}/{}/{}", who_name(*who), opts.map(|o| format!("+{}", o)).unwrap_or_default(), ["", "+nofsopen", "+nomountapi"][*mapi as usize], hk, op.brief()), backend: "K".into(), op, path: class.to_string() });
